@@ -136,7 +136,8 @@ def gen_case(rng, params, idx):
             for m in methods:
                 if rng.random() < 0.5:
                     m["pos"][j]["t"] = "ABCMeta"
-    return {"hier": hier, "methods": methods, "calls": calls, "strict_first": strict, "refine": spec_refine}
+    return {"hier": hier, "methods": methods, "calls": calls, "strict_first": strict, "refine": spec_refine,
+            "string_annotations": rng.random() < 0.3}
 
 
 def _is_passed(vx):
@@ -177,10 +178,25 @@ def check_case(spec, res):
     vf = VF()
     o = Ovld()
     files = []
+    import typing
     for m in spec["methods"]:
-        fn, f = make_method(m, env, vf, [f"return {m['mid']}"], tag="c14")
+        over = {}
+        if spec.get("string_annotations"):
+            # the same annotations written as strings (PEP 563 style): "type", "type[K0]", "typing.Any", "object"
+            for p in m["pos"]:
+                t = p["t"]
+                if t == "type":
+                    over[p["n"]] = "type"
+                elif t == "object":
+                    over[p["n"]] = "typing.Any" if m["mid"] % 2 else "object"
+                elif isinstance(t, list) and t[0] == "Ty" and isinstance(t[1], str):
+                    over[p["n"]] = f"type[{t[1]}]"
+        fn, f = make_method(m, env, vf, [f"return {m['mid']}"], tag="c14", ann_override=over or None,
+                            extra_globals={**env.names, "typing": typing} if over else None)
         o.register(fn)
         files.append(f)
+    if spec.get("string_annotations"):
+        res.count("programs_with_string_annotations")
     res.sample(spec)
     res.count("strict_first_" + spec.get("strict_first", "no"))
     sigkey = sorted(T.tname(p["t"]) for m in spec["methods"] for p in m["pos"])
